@@ -265,6 +265,8 @@ mod termination_replay {
 struct PerVehicleObjective {
     route: Vec<Float>,
     activity: Vec<Float>,
+    /// Optional route-level estimate per (vehicle, job) pair; overrides `route`.
+    pair: Option<Vec<Vec<Float>>>,
 }
 
 impl FeatureObjective for PerVehicleObjective {
@@ -275,7 +277,10 @@ impl FeatureObjective for PerVehicleObjective {
     fn estimate(&self, move_ctx: &MoveContext<'_>) -> Float {
         let idx = |id: Option<&String>| id.unwrap()[1..].parse::<usize>().unwrap();
         match move_ctx {
-            MoveContext::Route { job, .. } => self.route[idx(job.dimens().get_job_id())],
+            MoveContext::Route { job, route_ctx, .. } => match &self.pair {
+                Some(pair) => pair[idx(route_ctx.route().actor.vehicle.dimens.get_vehicle_id())][idx(job.dimens().get_job_id())],
+                None => self.route[idx(job.dimens().get_job_id())],
+            },
             MoveContext::Activity { activity_ctx, .. } => {
                 self.activity[idx(activity_ctx.target.job.as_ref().unwrap().dimens.get_job_id())]
             }
@@ -290,6 +295,8 @@ fn fold_order(case: &Value) {
     let floats = |v: &Value| v.as_array().unwrap().iter().map(|x| x.as_f64().unwrap()).collect::<Vec<_>>();
     let (route, activity) = (floats(&case["route_estimates"]), floats(&case["activity_estimates"]));
     let n_jobs = route.len();
+    let pair: Option<Vec<Vec<Float>>> =
+        case.get("pair_costs").filter(|v| !v.is_null()).map(|v| v.as_array().unwrap().iter().map(floats).collect());
     let n = case.get("routes").and_then(|v| v.as_u64()).unwrap_or(1) as usize;
     let vehicles = (0..n)
         .map(|idx| {
@@ -313,7 +320,7 @@ fn fold_order(case: &Value) {
     let activity_cost: Arc<dyn ActivityCost> = Arc::new(SimpleActivityCost::default());
     let feature = FeatureBuilder::default()
         .with_name("table")
-        .with_objective(PerVehicleObjective { route, activity })
+        .with_objective(PerVehicleObjective { route, activity, pair })
         .build()
         .unwrap();
     let goal_ctx = GoalContextBuilder::with_features(&[feature]).unwrap().build().unwrap();
